@@ -69,13 +69,26 @@ func VH_C19_metaonly() {
 			selected[e.stat.Path] = v.Bool("select")
 		}
 	}
-	switch v.Choose("prior", 4) {
+	// MERGE=1: merge mode (nothing the source does not replace is deleted, so a pre-existing entry with
+	// the listing's name survives until the listing is written)
+	merge := v.Param("MERGE", 0) != 0
+	out := m.Root("out")
+	m.MkFile(out+"/victim", []byte("keep"), 0600, 1, 1, 5)
+	nPrior := 4
+	if merge {
+		nPrior = 5
+	}
+	prior := v.Choose("prior", nPrior)
+	switch prior {
 	case 1:
 		m.MkFile(dest+"/zz", []byte("z"), 0644, 0, 0, 5)
 	case 2:
 		m.MkFile(dest+"/"+metadataPath, []byte("old listing"), 0644, 0, 0, 5)
 	case 3:
 		m.MkSymlink(dest+"/"+metadataPath, "elsewhere", 0, 0, 5)
+	case 4:
+		m.MkSymlink(dest+"/"+metadataPath, "../out/victim", 0, 0, 5) // a link to a file outside the destination
+		v.Cover("listing-name-link-outside")
 	}
 
 	ctx := context.Background()
@@ -83,7 +96,7 @@ func VH_C19_metaonly() {
 	var recvErr error
 	done := make(chan struct{})
 	go func() {
-		recvErr = Receive(ctx, rcv, dest, ReceiveOpt{MetadataOnly: func(p string, st *types.Stat) bool { return selected[p] }})
+		recvErr = Receive(ctx, rcv, dest, ReceiveOpt{Merge: merge, MetadataOnly: func(p string, st *types.Stat) bool { return selected[p] }})
 		close(done)
 	}()
 	for _, e := range src {
@@ -160,7 +173,16 @@ func VH_C19_metaonly() {
 		}
 		n++
 	}
-	v.Assert(n == len(want), "destination holds exactly the selected entries and their ancestors (stale entries removed)")
+	if merge && prior == 1 {
+		v.Assert(n == len(want)+1, "in merge mode the destination holds the selected entries, their ancestors and the stale entry")
+	} else {
+		v.Assert(n == len(want), "destination holds exactly the selected entries and their ancestors (stale entries removed)")
+	}
+	for i := range snap {
+		v.Assert(snap[i].Path != "elsewhere", "nothing is created through a pre-existing link with the listing's name")
+	}
+	outSnap := m.Snapshot(out)
+	v.Assert(len(outSnap) == 1 && string(outSnap[0].Data) == "keep" && outSnap[0].Perm == 0600, "a file outside the destination is not written through a pre-existing link with the listing's name")
 	for _, e := range want {
 		found := false
 		for i := range snap {
